@@ -140,28 +140,34 @@ struct Obs {
 }
 
 fn settle_all(sim: &mut Sim, server: &mut LinkServer, cap: usize) {
-    let mut rounds = 0;
+    // no bound on the number of rounds (a 1-byte channel moves one byte per round); a livelock
+    // (polls but no byte moves) is still detected
+    let mut stagnant = 0u32;
     loop {
-        rounds += 1;
-        let mut progress = 0usize;
-        progress += server.accept(&mut sim.link_rx);
+        let mut moved = 0usize;
+        moved += server.accept(&mut sim.link_rx);
         while server.answer_next(cap).is_some() {
-            progress += 1;
+            moved += 1;
         }
         for r in sim.remotes.iter_mut() {
-            progress += r.pump(usize::MAX);
+            moved += r.pump(usize::MAX);
         }
-        progress += sim.poll(10_000);
+        let polls = sim.poll(10_000);
         for r in sim.remotes.iter_mut() {
-            progress += r.read(usize::MAX);
+            moved += r.read(usize::MAX);
         }
-        progress += server.drain_all();
-        progress += server.accept(&mut sim.link_rx);
-        if progress == 0 && (sim.is_done() || !sim.is_woken()) {
+        moved += server.drain_all();
+        moved += server.accept(&mut sim.link_rx);
+        if moved == 0 && polls == 0 && (sim.is_done() || !sim.is_woken()) {
             break;
         }
-        if rounds > 200_000 {
-            panic!("settle_all did not reach a fixpoint (livelock)");
+        if moved == 0 {
+            stagnant += 1;
+            if stagnant > 20_000 {
+                panic!("settle_all: the system keeps running but nothing has moved for 20000 rounds (livelock)");
+            }
+        } else {
+            stagnant = 0;
         }
     }
 }
